@@ -580,6 +580,13 @@ func run(p *Plan, count bool) error {
 						if again := stampOf(txn.Route("GET", "/__version")); again != so.stamp {
 							rec.fail("%s: the version seen through one read-only transaction changed from %d to %d", so.who, so.stamp, again)
 						}
+						// the same question asked as a request look-up through the transaction
+						vreq := httptest.NewRequest("GET", "/__version", nil)
+						if lr, cc, _ := txn.Lookup(fox.NewTestContextOnly(httptest.NewRecorder(), vreq).Writer(), vreq); lr == nil || stampOf(lr) != so.stamp {
+							rec.fail("%s: Txn.Lookup of the version route through a read-only transaction finds version %d, Txn.Route found %d", so.who, stampOf(lr), so.stamp)
+						} else {
+							cc.Close()
+						}
 						// reverse look-ups through the transaction before and after it is ended (ending a read transaction
 						// changes nothing, it stays usable), and ending it twice
 						if rte, _ := txn.Reverse("GET", "", "/__version"); stampOf(rte) != so.stamp {
